@@ -153,7 +153,7 @@ def mk_rrset(rs):
 def mk_tsig_rdata(rd):
     """[ [1, alg], rest ] -> TSIG rdata"""
     alg = piece_name(rd, 0)
-    b = piece_bytes(rd, 1)
+    b = b"".join(bytes(p) for p in rd[1:])
     hi, lo, fudge, maclen = struct.unpack("!HIHH", b[:10])
     mac = b[10 : 10 + maclen]
     oid, err, olen = struct.unpack("!HHH", b[10 + maclen : 16 + maclen])
@@ -205,34 +205,36 @@ def merge(pieces):
 
 
 def rdata_pieces(rd):
+    """field-shaped pieces (one piece per field of the reader's schema, not merged)"""
     t = int(rd.rdtype)
     c = int(rd.rdclass)
     if isinstance(rd, dns.rdata.GenericRdata):
-        return merge([rd.data])
+        return [bytes(rd.data)]
     if t in (NS, CNAME, PTR):
         return [[0, labels_of(rd.target)]]
     if t == MX:
-        return merge([struct.pack("!H", rd.preference), [0, labels_of(rd.exchange)]])
+        return [struct.pack("!H", rd.preference), [0, labels_of(rd.exchange)]]
     if t == SOA:
-        return merge([[0, labels_of(rd.mname)], [0, labels_of(rd.rname)],
-                      struct.pack("!IIIII", rd.serial, rd.refresh, rd.retry, rd.expire, rd.minimum)])
+        return [[0, labels_of(rd.mname)], [0, labels_of(rd.rname)],
+                struct.pack("!IIIII", rd.serial, rd.refresh, rd.retry, rd.expire, rd.minimum)]
     if t == TXT:
-        return merge([b"".join(bytes([len(s)]) + s for s in rd.strings)])
+        return [b"".join(bytes([len(s)]) + s for s in rd.strings)]
     if t == RRSIG:
-        return merge([struct.pack("!HBBIIIH", rd.type_covered, rd.algorithm, rd.labels, rd.original_ttl,
-                                  rd.expiration, rd.inception, rd.key_tag),
-                      [1, labels_of(rd.signer)], rd.signature])
+        return [struct.pack("!HBBIIIH", rd.type_covered, rd.algorithm, rd.labels, rd.original_ttl,
+                            rd.expiration, rd.inception, rd.key_tag),
+                [1, labels_of(rd.signer)], bytes(rd.signature)]
     if t == TSIG:
-        return merge([[1, labels_of(rd.algorithm)],
-                      struct.pack("!HIHH", (rd.time_signed >> 32) & 0xFFFF, rd.time_signed & 0xFFFFFFFF,
-                                  rd.fudge, len(rd.mac)), rd.mac,
-                      struct.pack("!HHH", rd.original_id, rd.error, len(rd.other)), rd.other])
+        return [[1, labels_of(rd.algorithm)],
+                struct.pack("!HIH", (rd.time_signed >> 32) & 0xFFFF, rd.time_signed & 0xFFFFFFFF, rd.fudge),
+                struct.pack("!H", len(rd.mac)) + rd.mac,
+                struct.pack("!H", rd.original_id), struct.pack("!H", rd.error),
+                struct.pack("!H", len(rd.other)) + rd.other]
     if c == IN and t == A:
         return [dns.ipv4.inet_aton(rd.address)]
     if c == IN and t == AAAA:
         return [dns.ipv6.inet_aton(rd.address)]
     if c == IN and t == SRV:
-        return merge([struct.pack("!HHH", rd.priority, rd.weight, rd.port), [0, labels_of(rd.target)]])
+        return [struct.pack("!HHH", rd.priority, rd.weight, rd.port), [0, labels_of(rd.target)]]
     raise Unmodelled(f"{c}/{t}")
 
 
@@ -578,7 +580,7 @@ def gen_rdata(rng, pool, rdclass, rdtype):
         hdr = struct.pack("!HBBIIIH", covered, rng.randrange(256), rng.randrange(8), rng.randrange(2**32),
                           rng.randrange(2**32), rng.randrange(2**32), rng.randrange(65536))
         sig = bytes(rng.randrange(256) for _ in range(rng.choice([0, 1, 16, 64])))
-        return merge([hdr, [1, nm()], sig])
+        return [hdr, [1, nm()], sig]
     if rdclass == IN and rdtype == A:
         return [bytes(rng.randrange(256) for _ in range(4))]
     if rdclass == IN and rdtype == AAAA:
@@ -586,7 +588,7 @@ def gen_rdata(rng, pool, rdclass, rdtype):
     if rdclass == IN and rdtype == SRV:
         return [struct.pack("!HHH", rng.randrange(65536), rng.randrange(65536), rng.randrange(65536)), [0, nm()]]
     n = rng.choice([0, 1, 2, 7, 30, rng.randrange(100)])
-    return merge([bytes(rng.randrange(256) for _ in range(n))])
+    return [bytes(rng.randrange(256) for _ in range(n))]
 
 
 GENERIC_TYPES = [65280, 65534, 3, 4, 10, 31, 30, 100, 254, 255, 40, 65535, 0]
@@ -680,9 +682,10 @@ def gen_tsig(rng, pool, mid):
     mac = bytes(rng.randrange(256) for _ in range(maclen))
     other = bytes(rng.randrange(256) for _ in range(rng.choice([0, 0, 6])))
     t = rng.randrange(2**48)
-    rest = struct.pack("!HIHH", (t >> 32) & 0xFFFF, t & 0xFFFFFFFF, rng.randrange(65536), maclen) + mac + \
-        struct.pack("!HHH", rng.choice([mid, rng.randrange(65536)]), rng.choice([0, 16, 17, 18, rng.randrange(4096)]), len(other)) + other
-    return [kn, [[1, alg], rest]]
+    return [kn, [[1, alg], struct.pack("!HIH", (t >> 32) & 0xFFFF, t & 0xFFFFFFFF, rng.randrange(65536)),
+                 struct.pack("!H", maclen) + mac, struct.pack("!H", rng.choice([mid, rng.randrange(65536)])),
+                 struct.pack("!H", rng.choice([0, 16, 17, 18, rng.randrange(4096)])),
+                 struct.pack("!H", len(other)) + other]]
 
 
 def gen_query_like(rng, origin=None, size="small", opcode=None, with_opt=True, with_tsig=True):
